@@ -239,3 +239,51 @@ class scheduler_backtrack_iteration_space(_scheduler_backtrack_base):
 class scheduler_backtrack_fits_template(_scheduler_backtrack_base):
     """C16: every level of every yielded schedule passed matches + extra checks and respects the template bound"""
     shapes = [dict(nchecks=c, mode="C16") for c in (0, 1, 2)]
+
+
+# =====================================================================================
+# scheduler(): the wrapper hands the requested constraints to the search on EVERY path
+# =====================================================================================
+SW = {}
+
+
+class Marker:
+    def __init__(self, tag):
+        self.tag = tag
+
+
+def backtrack_handler(local):
+    """scheduler_backtrack through its contract: it yields exactly the schedules that satisfy the extra_checks it is GIVEN
+    (scheduler_backtrack_fits_template) - so what matters here is which checks it is given"""
+    SW["calls"].append((local["template"], local["schedule"], local["inner_dims"], local["extra_checks"]))
+    return iter(list(SW["yields"]))
+
+
+@contract
+class scheduler_passes_constraints_contract:
+    """whatever candidate is selected (the first, or the one with a given index), it comes from ONE search over the given
+    template and schedule with exactly the requested extra checks"""
+    target = "snaxc.ir.dart.scheduler.scheduler"
+    shapes = [dict(idx=i, n=n) for i in (None, 0, 1, 2) for n in (1, 3) if i is None or i < n]
+    native = False
+    total = True
+    permissive = True
+    compare_ret = False
+    modular = {"snaxc.ir.dart.scheduler.scheduler_backtrack": backtrack_handler}
+
+    def args(sh, sym):
+        SW["calls"] = []
+        SW["yields"] = [Marker(k) for k in range(sh["n"])]
+        return [Marker("template"), Marker("schedule"), [Marker("check0"), Marker("check1")], sh["idx"]]
+
+    def ensures(sh, a, ret):
+        t, s, checks, idx = a
+        check("exactly one search", len(SW["calls"]) == 1)
+        c = SW["calls"][0]
+        check("... over the given template and schedule, from the innermost dimension", c[0] is t and c[1] is s and c[2] == 1)
+        check("... with exactly the requested extra checks (also when a candidate is selected by index)",
+              len(c[3]) == len(checks) and all(c[3][k] is checks[k] for k in range(len(checks))))
+        check("the selected candidate is the first one, or the one with the requested index", ret is SW["yields"][0 if idx is None else idx])
+
+    def canary(sh, a, ret):
+        check("canary: always the last candidate", ret is SW["yields"][-1] and sh["n"] > 1)
